@@ -22,6 +22,7 @@ CONSTANTS N,          \* grid 0..N
           Ops,        \* enabled operations
           Kinds,      \* subset of {"I","P"}
           Depth,      \* history depth (1 = every op on every universe state)
+          OneSpan,    \* TRUE: every tier spans [0, N] (set operations: the span plays no role); FALSE: all span variants
           Slice, NSlices,   \* this process handles universe members i with i % NSlices = Slice
           Emit        \* print every event as JSON
 
@@ -41,7 +42,7 @@ Geo(from, k) ==
 LabelledI(g) == { [i \in Idx(g) |-> Iv(g[i].s, g[i].e, f[i])] : f \in [Idx(g) -> LabelsU] }
 FirstS(es) == IF es = <<>> THEN N ELSE es[1].s
 LastE(es) == IF es = <<>> THEN 0 ELSE es[Len(es)].e
-SpansI(es) == { <<lo, hi>> \in {0, 1} \X {N - 1, N} : lo <= FirstS(es) /\ hi >= LastE(es) /\ lo < hi }
+SpansI(es) == IF OneSpan THEN {<<0, N>>} ELSE { <<lo, hi>> \in {0, 1} \X {N - 1, N} : lo <= FirstS(es) /\ hi >= LastE(es) /\ lo < hi }
 TiersI == UNION { UNION { { MkTier("I", "t", sp[1], sp[2], es) : sp \in SpansI(es) } : es \in LabelledI(g) } : g \in Geo(0, K) }
 
 RECURSIVE GeoP(_, _)
@@ -51,7 +52,7 @@ GeoP(from, k) ==
 LabelledP(g) == { [i \in Idx(g) |-> Pt(g[i].t, f[i])] : f \in [Idx(g) -> LabelsU] }
 FirstT(ps) == IF ps = <<>> THEN N ELSE ps[1].t
 LastT(ps) == IF ps = <<>> THEN 0 ELSE ps[Len(ps)].t
-SpansP(ps) == { <<lo, hi>> \in {0, 1} \X {N - 1, N} : lo <= FirstT(ps) /\ hi >= LastT(ps) /\ lo < hi }
+SpansP(ps) == IF OneSpan THEN {<<0, N>>} ELSE { <<lo, hi>> \in {0, 1} \X {N - 1, N} : lo <= FirstT(ps) /\ hi >= LastT(ps) /\ lo < hi }
 TiersP == UNION { UNION { { MkTier("P", "t", sp[1], sp[2], ps) : sp \in SpansP(ps) } : ps \in LabelledP(g) } : g \in GeoP(0, K) }
 
 Universe == (IF "I" \in Kinds THEN TiersI ELSE {}) \cup (IF "P" \in Kinds THEN TiersP ELSE {})
